@@ -103,6 +103,24 @@ fn env_same_step(seed: u64, n: usize, modify: bool) -> Vec<usize> {
 fn env_same_step_cancel(seed: u64, n: usize) -> Vec<usize> { env_same_step(seed, n, false) }
 fn env_same_step_modify(seed: u64, n: usize) -> Vec<usize> { env_same_step(seed, n, true) }
 
+/// large batches (hundreds of instructions): positions of 16 tracked items (the first and the last eight
+/// submitted) of a batch of `n` new orders, on Env or on a 2-asset MarketEnv with the assets alternating
+fn large_batch_tracked(seed: u64, n: usize, market: bool) -> Vec<usize> {
+    let mut rng = Xoroshiro128StarStar::seed_from_u64(seed ^ 0x9FB21C651E98DF25);
+    let tracked: Vec<usize> = (0..8).chain(n - 8..n).collect();
+    if market {
+        let mut env: MarketEnv<2, 1> = MarketEnv::new(0, [1, 1], 1_000_000, true);
+        let ids: Vec<(usize, usize)> = (0..n).map(|i| env.place_order(i % 2, Side::Bid, 1, 1, Some(10 + (i as u32 % 50))).unwrap()).collect();
+        env.step(&mut rng);
+        tracked.iter().map(|&i| env.order(ids[i]).arr_time as usize).collect()
+    } else {
+        let mut env: Env<1> = Env::new(0, 1, 1_000_000, true);
+        let ids: Vec<usize> = (0..n).map(|i| env.place_order(Side::Bid, 1, 1, Some(10 + (i as u32 % 50))).unwrap()).collect();
+        env.step(&mut rng);
+        tracked.iter().map(|&i| env.order(ids[i]).arr_time as usize).collect()
+    }
+}
+
 pub fn run(seeds_small: u64, seeds_large: u64, base: u64) -> (Vec<String>, String) {
     let mut fails = Vec::new();
     let mut summary = Vec::new();
@@ -110,6 +128,7 @@ pub fn run(seeds_small: u64, seeds_large: u64, base: u64) -> (Vec<String>, Strin
     let mut cells = 0.0;
     for n in 2..=6 { cells += 6.0 * fact(n) as f64; }
     for n in [8usize, 16, 32, 64] { cells += 6.0 * (n * n) as f64 * 2.0; }
+    cells += 2.0 * 2.0 * (120.0 + 16.0);
     for (label, f) in [("Env", env_positions as fn(u64, usize) -> Vec<usize>), ("MarketEnv-mixed", menv_positions as fn(u64, usize) -> Vec<usize>),
                        ("Env (trading disabled)", env_positions_off as fn(u64, usize) -> Vec<usize>),
                        ("MarketEnv-mixed (trading disabled)", menv_positions_off as fn(u64, usize) -> Vec<usize>),
@@ -150,6 +169,26 @@ pub fn run(seeds_small: u64, seeds_large: u64, base: u64) -> (Vec<String>, Strin
             summary.push(format!("{{\"target\":\"{}\",\"n\":{},\"steps\":{},\"position_table_max_deviation\":{:.1},\"position_bound\":{:.1},\"pairwise_max_deviation\":{:.1},\"pairwise_bound\":{:.1}}}", label, n, seeds_large, w1, b1, w2, b2));
             if w1 > b1 { fails.push(format!("{} batch size {}: position-by-item table deviates by {:.0} from {:.0} (bound {:.0})", label, n, w1, e1, b1)); }
             if w2 > b2 { fails.push(format!("{} batch size {}: pairwise-order table deviates by {:.0} from {:.0} (bound {:.0})", label, n, w2, e2, b2)); }
+        }
+    }
+    // large batches: pairwise order and "lands in the first half" of 16 tracked items
+    let seeds_big = (seeds_large / 12).max(400);
+    for (label, market) in [("Env-large-batch", false), ("MarketEnv-large-batch (assets alternating)", true)] {
+        for n in [300usize, 700] {
+            let mut pair = vec![0u64; 16 * 16];
+            let mut first_half = vec![0u64; 16];
+            for s in 0..seeds_big {
+                let pos = large_batch_tracked(base.wrapping_add(13).wrapping_add(s.wrapping_mul(0xA0761D6478BD642F)), n, market);
+                if pos.iter().any(|&p| p >= n) { fails.push(format!("{} n={}: a tracked instruction was stamped outside the batch: {:?}", label, n, pos)); return (fails, String::new()); }
+                for i in 0..16 { if pos[i] < n / 2 { first_half[i] += 1; } for j in i + 1..16 { if pos[i] < pos[j] { pair[i * 16 + j] += 1; } } }
+            }
+            let b = bound(seeds_big as f64, 0.5, cells);
+            let e = seeds_big as f64 / 2.0;
+            let mut w: f64 = first_half.iter().map(|&c| (c as f64 - e).abs()).fold(0.0, f64::max);
+            let wf = w;
+            for i in 0..16 { for j in i + 1..16 { w = w.max((pair[i * 16 + j] as f64 - e).abs()); } }
+            summary.push(format!("{{\"target\":\"{}\",\"n\":{},\"steps\":{},\"first_half_max_deviation\":{:.1},\"pairwise_max_deviation\":{:.1},\"bound\":{:.1}}}", label, n, seeds_big, wf, w, b));
+            if w > b { fails.push(format!("{} batch size {}: pairwise-order / first-half counts of the tracked instructions deviate by {:.0} from {:.0} (bound {:.0}) over {} seeded steps", label, n, w, e, b, seeds_big)); }
         }
     }
     (fails, format!("[{}]", summary.join(",")))
